@@ -387,4 +387,64 @@ theorem rshift_val' (x : Nat) (xs : List Nat) (c : Nat) (hu : Limbs (x :: xs)) (
     show (x <<< (64 - c)) % B = _
     rw [h, hB, Nat.mul_comm (2 ^ c), Nat.mul_comm (val _), Nat.mul_mod_mul_left, Nat.mul_comm]
 
+/-! ### cmp / zero_p -/
+
+theorem val_reverse_cons (x : Nat) (xs : List Nat) :
+    val (x :: xs).reverse = val xs.reverse + B ^ xs.length * x := by
+  rw [List.reverse_cons, val_append, List.length_reverse]; simp
+
+theorem Limbs_reverse {l : List Nat} (h : Limbs l) : Limbs l.reverse :=
+  fun x hx => h x (List.mem_reverse.mp hx)
+
+/-- comparison from the most significant limb decides the order of the values
+    (`a`, `b` most significant first) -/
+theorem cmpRev_spec : ∀ (a b : List Nat), Limbs a → Limbs b → a.length = b.length →
+    (cmpRev a b = -1 ∧ val a.reverse < val b.reverse) ∨
+    (cmpRev a b = 0 ∧ val a.reverse = val b.reverse) ∨
+    (cmpRev a b = 1 ∧ val b.reverse < val a.reverse)
+  | [], [], _, _, _ => by simp [cmpRev]
+  | [], _ :: _, _, _, h => by simp at h
+  | _ :: _, [], _, _, h => by simp at h
+  | x :: xs, y :: ys, ha, hb, hl => by
+    have ⟨hx, hxs⟩ := Limbs_cons.mp ha
+    have ⟨hy, hys⟩ := Limbs_cons.mp hb
+    have hl' : xs.length = ys.length := by simpa using hl
+    have ih := cmpRev_spec xs ys hxs hys hl'
+    have bx := val_lt xs.reverse (Limbs_reverse hxs)
+    have bY := val_lt ys.reverse (Limbs_reverse hys)
+    rw [List.length_reverse] at bx bY
+    rw [val_reverse_cons, val_reverse_cons, ← hl']
+    rw [← hl'] at bY
+    generalize val xs.reverse = p at *
+    generalize val ys.reverse = q at *
+    generalize B ^ xs.length = P at *
+    have step : cmpRev (x :: xs) (y :: ys) =
+        if x ≠ y then (if x > y then 1 else -1) else cmpRev xs ys := rfl
+    rw [step]
+    by_cases hxy : x = y
+    · rw [if_neg (by simpa using hxy), hxy]
+      generalize P * y = t
+      omega
+    · rw [if_pos hxy]
+      by_cases hgt : x > y
+      · have : P * (y + 1) ≤ P * x := Nat.mul_le_mul_left _ hgt
+        rw [if_pos hgt]
+        right; right; exact ⟨rfl, by linarith⟩
+      · have : P * (x + 1) ≤ P * y := Nat.mul_le_mul_left _ (by omega)
+        rw [if_neg hgt]
+        left; exact ⟨rfl, by linarith⟩
+
+theorem zero_p_iff' : ∀ (u : List Nat), zero_p u = true ↔ val u = 0
+  | [] => by simp [zero_p]
+  | x :: xs => by
+    have ih := zero_p_iff' xs
+    have step : zero_p (x :: xs) = ((x == 0) && zero_p xs) := rfl
+    have hB := B_pos
+    rw [step, val_cons, Bool.and_eq_true, ih, beq_iff_eq]
+    constructor
+    · rintro ⟨h1, h2⟩; rw [h1, h2]; simp
+    · intro h
+      have h1 : x = 0 := by omega
+      have h2 : B * val xs = 0 := by omega
+      exact ⟨h1, (Nat.mul_eq_zero.mp h2).resolve_left (by omega)⟩
 end Mpir
